@@ -7,8 +7,8 @@ class Driver(ChanDriver):
     PID = 'C11'
     PROP = 'c11_ok'
     PROFILES = [('errors', 150, 2000), ('consume', 60, 600)]
-    CONC = [('close', concdrv.gen_close, 'conc_close_ok', 40, 600),
-            ('connclose', concdrv.gen_connclose, 'conc_connclose_once_ok', 30, 400)]
+    CONC = [('close', concdrv.gen_close, 'conc_close_ok', 100, 1000),
+            ('connclose', concdrv.gen_connclose, 'conc_connclose_once_ok', 80, 800)]
     RULE = ("scenarios from the profiles ['errors', 'consume'] of harness/changen.py: sequences of "
             'application operations on 1-3 channels, each with a script of '
             'inbound frame batches (replies, deliveries, returns, cancels, '
